@@ -134,6 +134,13 @@ func verifProject(v interface{}) VerifValue {
 // VerifDump returns a projection of the whole internal state, taken under the locks
 // that protect each part.
 func (server *SugarDB) VerifDump() VerifState {
+	return server.VerifDumpKeys(nil)
+}
+
+// VerifDumpKeys is VerifDump restricted to the keys accepted by keep (nil = all keys), so that a
+// client of a concurrent run can observe its own keys without touching values other clients
+// may be modifying.
+func (server *SugarDB) VerifDumpKeys(keep func(key string) bool) VerifState {
 	st := VerifState{
 		DBs:      make(map[int]map[string]VerifEntry),
 		Volatile: make(map[int][]string),
@@ -145,6 +152,9 @@ func (server *SugarDB) VerifDump() VerifState {
 	for db, data := range server.store {
 		st.DBs[db] = make(map[string]VerifEntry, len(data))
 		for k, e := range data {
+			if keep != nil && !keep(k) {
+				continue
+			}
 			st.DBs[db][k] = VerifEntry{
 				Value:       verifProject(e.Value),
 				HasDeadline: e.ExpireAt != (time.Time{}),
